@@ -870,7 +870,18 @@ func (d *diskState) userOp(op simkit.Op) {
 		d.touch(abs)
 	case "edit":
 		// In-place content edit of an existing file (same inode).
-		if st, err := os.Lstat(abs); err == nil && st.Mode().IsRegular() {
+		if st, err := os.Lstat(abs); err == nil && st.Mode().IsRegular() && op.Int(1) == 2 {
+			// Replaced the way rsync -t or a restore tool does it: a new file
+			// (another inode) with other content of the same size is renamed over
+			// the old one and given the old one's times and mode. Only the
+			// inode and the content tell the two apart.
+			tmp := abs + ".user-tmp"
+			os.WriteFile(tmp, []byte(fmt.Sprintf("content-%d", op.Int(0))), st.Mode().Perm())
+			os.Chmod(tmp, st.Mode().Perm())
+			os.Chtimes(tmp, st.ModTime(), st.ModTime())
+			os.Rename(tmp, abs)
+			d.h.s.Count("probe.user_replaced_keeping_times", 1)
+		} else if err == nil && st.Mode().IsRegular() {
 			os.WriteFile(abs, []byte(fmt.Sprintf("content-%d", op.Int(0))), st.Mode().Perm())
 			if op.Int(1) == 1 {
 				// ... restored with an older modification time (cp -p, tar x,
@@ -1205,6 +1216,12 @@ func (e *diskEndpoint) Scan(ctx context.Context, ancestor *core.Entry, full bool
 	ref := d.walkTree(e.side)
 	fresh := snapshotMatches(snap.Content, ref)
 	h.mu.Lock()
+	if h.haltWatch && h.haltWatchSide == e.side && h.haltFirstScan == 0 {
+		h.haltFirstScan = 2
+		if fresh {
+			h.haltFirstScan = 1
+		}
+	}
 	userDuring := h.userSeq[e.side] > started
 	lastChange := max(h.userSeq[e.side], d.transEnd[e.side])
 	exact := (full && !userDuring) || (d.freshAt[e.side] > lastChange)
@@ -1245,6 +1262,19 @@ func (e *diskEndpoint) Scan(ctx context.Context, ancestor *core.Entry, full bool
 			h.s.Count("probe.links_accepted_by_scan", 1)
 			if !portableTarget(p, x.Target) {
 				h.s.Violate("C16", "escaping-link-accepted", "scan", "the %s scan accepted the symbolic link %q -> %q, which is not a portable target inside the root (%s)", e.side, p, x.Target, whyNotPortable(p, x.Target))
+			}
+			// What counts is the link on the disk, not the text the scan
+			// believes it read: with nobody having touched this side since the
+			// scan began, the two are the same thing.
+			if exact && ideal {
+				if actual, err := os.Readlink(filepath.Join(d.roots[e.side], p)); err == nil {
+					h.s.Count("probe.accepted_links_compared_with_disk", 1)
+					if actual != x.Target {
+						h.s.Violate("C16", "link-target-misread", "scan", "the %s scan reports the symbolic link %q as -> %q (%d bytes), the link on disk is -> %q (%d bytes)", e.side, p, x.Target, len(x.Target), actual, len(actual))
+					} else if !portableTarget(p, actual) {
+						h.s.Violate("C16", "escaping-link-accepted", "scan", "the %s scan accepted the symbolic link %q, which on disk is -> %q: not a portable target inside the root (%s)", e.side, p, actual, whyNotPortable(p, actual))
+					}
+				}
 			}
 		}
 	})
